@@ -85,7 +85,7 @@ CLAIMED['C06'] = dict(
     note='AX-SEGYIO-W assumed; get_trace per C02 contracts; found and fixed D35 (format word read from the wrong bytes)')
 CLAIMED['C12'] = dict(
     category='exploration',
-    text='BOUNDED stand-in, not a proof: the real convert_to_adv_sgz is run on a grid of default-layout 2-bit files (quick 11 / thorough 20 shape x array-count x regularity cases) and the output is '
+    text='BOUNDED stand-in, not a proof: the real convert_to_adv_sgz is run on a grid of default-layout 2-bit files (quick 13 / thorough 22 shape x array-count x regularity cases) and the output is '
          'compared with the source under the independent spec oracle and the real reader (conformance, every real voxel bitwise, axes, trace count, file headers, every trace header, hash). '
          'Proved (contract on the real function): every unsupported input is refused with AssertionError before any output exists.',
     note='bounded in cube shapes; the copying loops are outside the VC generator (out-of-range slice semantics, four nested symbolic loops); found and fixed D31, D32, D36',
